@@ -1,0 +1,37 @@
+//go:build verif
+
+package casblob
+
+// Accessors for the verification harness under /verif (build tag "verif").
+// Nothing in this file is compiled into a normal build.
+
+import "os"
+
+// VerifHeader mirrors header with exported fields.
+type VerifHeader struct {
+	UncompressedSize int64
+	Compression      uint8
+	ChunkSize        uint32
+	ChunkOffsets     []int64
+}
+
+// VerifReadHeader runs readHeader on f and returns what it produced.
+func VerifReadHeader(f *os.File) (*VerifHeader, error) {
+	h, err := readHeader(f)
+	if err != nil {
+		return nil, err
+	}
+	return &VerifHeader{
+		UncompressedSize: h.uncompressedSize,
+		Compression:      uint8(h.compression),
+		ChunkSize:        h.chunkSize,
+		ChunkOffsets:     h.chunkOffsets,
+	}, nil
+}
+
+// Constants of the file format as compiled.
+const (
+	VerifDefaultChunkSize          = defaultChunkSize
+	VerifChunkTableOffset          = chunkTableOffset
+	VerifSkippableFrameMagicNumber = skippableFrameMagicNumber
+)
